@@ -136,7 +136,7 @@ theorem meta_hints_eq (bv : List Nat) (b hash : Nat) :
     GenFn.meta_hint_not_match bv b hash = (bv[b]?).map (fun m => decide (m ≠ (Wal.fullEntry hash).toNat)) := by
   unfold GenFn.meta_hint_empty GenFn.meta_hint_tombstone GenFn.meta_hint_not_match
   simp only [full_entry_eq]
-  cases bv[b]? <;> simp
+  cases bv[b]? <;> simp <;> omega
 
 theorem meta_set_eq (bv : List Nat) (b hash : Nat) :
     GenFn.meta_set_full bv b hash = (if b < bv.length then some (bv.set b (Wal.fullEntry hash).toNat) else none) ∧
@@ -169,6 +169,7 @@ theorem uncompressed_range_eq (pl comp n fl : Nat) (h1 : pl < 2 ^ 31) (h2 : comp
   have : n < 2147483648 := by simpa using h3
   have hm : pl * n ≤ 2147483648 * 2147483648 := Nat.mul_le_mul (by omega) (by omega)
   unfold GenFn.uncompressed_separator_range_size BranchUpd.uncompressedRange
+  try rw [Nat.mul_comm n pl]
   generalize pl * n = m at *
   paths'
 
@@ -180,6 +181,7 @@ theorem compressed_range_eq (fl pc sum pl : Nat) (h1 : fl < 2 ^ 31) (h2 : pc < 2
   have : pl < 2147483648 := by simpa using h4
   have hm : (pc - 1) * pl ≤ 2147483648 * 2147483648 := Nat.mul_le_mul (by omega) (by omega)
   unfold GenFn.compressed_separator_range_size BranchUpd.compressedRange
+  try simp only [Nat.mul_comm pl (pc - 1)]
   generalize (pc - 1) * pl = m at *
   paths'
 
@@ -248,7 +250,9 @@ theorem record_id_eq (r : Nat) (h : r < 2 ^ 64 - 1) :
   unfold GenFn.record_id_next GenFn.record_id_prev GenFn.record_id_is_nil GenFn.page_number_is_nil
   refine ⟨by paths', ?_, rfl, rfl⟩
   by_cases h0 : r = 0
-  · simp [h0]
-  · simp [h0] <;> omega
+  · subst h0; rfl
+  · have h1 : 0 < r := by omega
+    have h2 : 1 ≤ r := h1
+    simp [h0, h1, h2]
 
 end Nomt.GenFnCheck
